@@ -307,7 +307,7 @@ def work(shard, seed, tier):
                  "(step 45 quick / 7.5 thorough) x the same wraps")
         return acc
 
-    n = 3000 if tier == "quick" else 62500
+    n = 1500 if tier == "quick" else 62500
 
     def execute(case):
         fails, nt, cls, key = run_case(case)
